@@ -238,6 +238,13 @@ func c03Kind(c *CaseC03) string {
 }
 
 func sweepC03(tier string, emit func(*CaseC03)) {
+	if tier != "quick" {
+		// outputs beyond 2^20 IDs (implementations may switch strategy with size): partially overlapping inputs
+		// (crossing zooms), nested inputs and a repeated entry
+		emit(&CaseC03{Boxes: []ref.Box{{H: 0, X: 0, Y: 0, V: 3, F: 0}, {H: 3, X: 0, Y: 0, V: 0, F: 0}}, H: 10, V: 3})
+		emit(&CaseC03{Boxes: []ref.Box{{H: 3, X: 7, Y: 7, V: 0, F: -1}, {H: 0, X: 0, Y: 0, V: 3, F: -8}, {H: 3, X: 7, Y: 7, V: 0, F: -1}}, H: 10, V: 3})
+		emit(&CaseC03{Boxes: []ref.Box{{H: 1, X: 1, Y: 0, V: 1, F: -1}, {H: 2, X: 2, Y: 1, V: 2, F: -2}}, H: 10, V: 3, Spatial: false})
+	}
 	// every box at zooms <= 2 x every target pair <= 5 (output <= 4^5*2^5 too large: bound by maxOut)
 	maxZ, maxT := int64(2), int64(5)
 	if tier == "quick" {
